@@ -193,6 +193,72 @@ def rule_store_coherent(ctx, rep):
     rep.check("R-STORE-COHERENT", hr.qname, hr.loc(), ".name" in t, "by-name", "has_requirement no longer compares requirement names (a package already declared in another version would be added again)")
 
 
+MANIFEST_PAIRS = {
+    "setup.cfg": ("codemodder.project_analysis.file_parsers.setup_cfg_file_parser", "codemodder.dependency_management.setupcfg_writer"),
+    "setup.py": ("codemodder.project_analysis.file_parsers.setup_py_file_parser", "codemodder.dependency_management.setup_py_writer"),
+    "pyproject.toml": ("codemodder.project_analysis.file_parsers.pyproject_toml_file_parser", "codemodder.dependency_management.pyproject_writer"),
+    "requirements.txt": ("codemodder.project_analysis.file_parsers.requirements_txt_file_parser", "codemodder.dependency_management.requirements_txt_writer"),
+}
+PARSER_LIBS = ("configparser.ConfigParser", "configparser.RawConfigParser", "configparser.SafeConfigParser", "tomlkit.parse", "tomlkit.load", "tomlkit.loads",
+               "toml.load", "toml.loads", "tomllib.load", "tomllib.loads", "libcst.parse_module")
+NAME_RESOLVERS = ("resolve_expression", "resolve_list_literal", "resolve_dict", "resolve_keyword_args", "find_assignments", "find_single_assignment")
+
+
+def rule_manifest_siblings(ctx, rep):
+    rep.rule(
+        "R-MANIFEST-SIBLINGS",
+        "for each kind of manifest the parser (which decides what is `already declared` and whether the file is a usable store at all) and the "
+        "writer (which edits it) read the file the same way: (a) a parsing-library constructor / loader used by both is given the same options "
+        "(a lenient parser next to a strict writer accepts a file as a store that the writer then fails on, with an exception nothing catches); "
+        "(b) the writer follows names to the requirement list (resolve_expression & co) only if the parser does -- otherwise it edits lists "
+        "whose entries has_requirement cannot see, and declared packages are added again",
+        min_instances=4,
+    )
+    n = 0
+    for kind, (pq, wq) in MANIFEST_PAIRS.items():
+        pm, wm = ctx.prog.module(pq), ctx.prog.module(wq)
+
+        def lib_calls(mod):
+            out: dict[str, list[tuple[ast.Call, object]]] = {}
+            for fn in [f for f in ctx.prog.live_functions() if f.module is mod]:
+                r = ctx.resolver(fn)
+                for c in walk_no_nested(fn.node):
+                    if isinstance(c, ast.Call):
+                        q = r.callee_qname(c) or ""
+                        if q in PARSER_LIBS:
+                            out.setdefault(q, []).append((c, fn))
+            return out
+
+        def opts(c: ast.Call):
+            return tuple(sorted((k.arg or "**", unparse(k.value)) for k in c.keywords if k.arg not in ("encoding",)))
+
+        pc, wc = lib_calls(pm), lib_calls(wm)
+        for q in sorted(set(pc) & set(wc)):
+            n += 1
+            po = {opts(c) for c, _ in pc[q]}
+            wo = {opts(c) for c, _ in wc[q]}
+            c0, f0 = pc[q][0]
+            rep.check("R-MANIFEST-SIBLINGS", f0.qname, f0.loc(c0), po == wo, f"{kind}:{q}:same-options",
+                      f"{kind}: the parser calls {q} with {sorted(po)} but the writer with {sorted(wo)}: the two accept different files")
+
+        def resolver_calls(mod):
+            out = []
+            for fn in [f for f in ctx.prog.live_functions() if f.module is mod]:
+                for c in walk_no_nested(fn.node):
+                    if isinstance(c, ast.Call) and isinstance(c.func, ast.Attribute) and c.func.attr in NAME_RESOLVERS:
+                        out.append((c, fn))
+            return out
+
+        wres, pres = resolver_calls(wm), resolver_calls(pm)
+        n += 1
+        ok = not wres or bool(pres)
+        rep.check("R-MANIFEST-SIBLINGS", wm.name, (wres[0][1].loc(wres[0][0]) if wres else f"src/{wm.relpath}:1"), ok, f"{kind}:name-resolution-agrees",
+                  f"{kind}: the writer follows names (`{unparse(wres[0][0])[:50]}`) to find the requirement list, the parser reads only what is written "
+                  "in place: entries of a named list are invisible to has_requirement and are added again" if not ok else "")
+    if n < 4:
+        raise AnalysisError(f"only {n} parser/writer sibling obligations found")
+
+
 def rule_requirement_constants(ctx, rep):
     from .c01 import QUOTES
 
@@ -245,6 +311,7 @@ def check(ctx, rep):
 
     rule_memo_coherent(ctx, rep)
     rule_requirement_constants(ctx, rep)
+    rule_manifest_siblings(ctx, rep)
     rule_shared(ctx, rep)
     from .c12 import MANIFEST_MODULES, rule_every_input_read
 
